@@ -6,6 +6,11 @@ from sxg import *
 I64_MAX = 2 ** 63 - 1
 I64_MIN = -2 ** 63
 
+# Length values of in-memory streams with small real content (seeded defect C13/p2)
+HUGE_LENGTHS = [I64_MAX, I64_MAX - 7, I64_MAX - 1, 2 ** 62, 2 ** 56, 2 ** 48, 2 ** 47]
+NEG_LENGTHS = [-1, -2 ** 31, I64_MIN, I64_MIN + 1]
+WRONG_LENGTHS = [R('1.5'), N('Length'), S(b'12'), NULL, A([I(5)]), D([]), B(True), R('9223372036854775807')]
+
 TYPE_NAMES = ['Catalog', 'Pages', 'Page', 'Font', 'XObject', 'Outlines', 'Annot', 'Junk']
 ENC_NAMES = ['StandardEncoding', 'MacRomanEncoding', 'MacExpertEncoding', 'WinAnsiEncoding', 'PDFDocEncoding',
              'Identity-H', 'Identity-V', 'UniGB-UCS2-H', 'Custom']
@@ -175,13 +180,24 @@ class G:
             parms = D([('Predictor', I(self.rng.choice([1, 2, 10, 12, 15]))), ('Columns', I(self.rng.choice([1, 2, 3]))),
                        ('Colors', I(self.rng.choice([1, 3])))])
             ents.append(('DecodeParms', self.rng.choice([parms, A([parms]), A([NULL, parms])])))
-        ents.append(('Length', self.f(lambda: self.rng.choice([I(len(content)), self.ref(self.pick('int'))]))))
+        ents.append(('Length', self.f(lambda: self.length_value(len(content)))))
         if kind == 'image':
             ents += [('Subtype', self.f(N('Image'))), ('Width', self.f(self.int_)), ('Height', self.f(self.int_)),
                      ('ColorSpace', self.f(lambda: self.rng.choice([N('DeviceRGB'), A([N('ICCBased'), self.ref()]), A([]),
                                                                      A([I(1)]), N('caf\xe9')]))),
                      ('BitsPerComponent', self.f(lambda: I(8)))]
         return ST(self.entries(ents), content)
+
+    def length_value(self, n):
+        """the Length entry of a stream built in memory (nothing rewrites it: only the reader does): mostly right or an
+        indirect integer, else huge / negative / of the wrong kind (seeded defect C13/p2: a buffer sized from it)"""
+        rng = self.rng
+        r = rng.random()
+        if r < 0.55: return I(n)
+        if r < 0.72: return self.ref(self.pick('int'))
+        if r < 0.84: return I(rng.choice(HUGE_LENGTHS))
+        if r < 0.92: return I(rng.choice(NEG_LENGTHS))
+        return rng.choice(WRONG_LENGTHS)
 
     def make(self, role):
         rng = self.rng
@@ -690,6 +706,92 @@ def gen_contents(rng):
     return contents_doc(c, extra, inherit=rng.random() < 0.3), kind
 
 
+# ------------------------------------------------------------------------------------------
+# Length family (seeded defect C13/p2): in-memory content streams whose dictionary Length lies
+# ------------------------------------------------------------------------------------------
+def length_doc(streams, extra=(), direct=False, inherit=False, in_tree=True):
+    """catalog 1, page tree 2, page 3 whose Contents lists the streams 10, 11, ...; streams: list of (Length value or None,
+    filter?) -- the real content is always small; extra: the objects the Length entries refer to"""
+    objs = []
+    for k, (length, a85) in enumerate(streams):
+        ents = [('Filter', N('ASCII85Decode'))] if a85 else []
+        if length is not None:
+            ents.insert(k % 2 if ents else 0, ('Length', length))
+        objs.append((10 + k, ST(ents, b'87cURD]i,"Ebo80~>' if a85 else [b'BT /F1 12 Tf (Hello) Tj ET', b'q Q', b''][k % 3])))
+    refs = [REF(10 + k) for k in range(len(streams))]
+    contents = refs[0] if (direct and len(refs) == 1) else A(refs)
+    res = D([('Font', D([('F1', REF(90))]))])
+    page = [('Type', N('Page')), ('Parent', REF(2))] + ([] if inherit else [('Resources', res)]) + [('Contents', contents)]
+    objs += [(1, D([('Type', N('Catalog')), ('Pages', REF(2))])),
+             (2, D([('Type', N('Pages')), ('Kids', A([REF(3)] if in_tree else [])), ('Count', I(1 if in_tree else 0))] +
+                   ([('Resources', res)] if inherit else []))),
+             (3, D(page)),
+             (90, D([('Type', N('Font')), ('Subtype', N('Type1')), ('Encoding', N('WinAnsiEncoding'))]))]
+    return doc_of(sorted(objs + list(extra)))
+
+
+def length_shapes():
+    """fixed members (every run): (streams, extra, options)"""
+    E = {}
+    for v in HUGE_LENGTHS:
+        E['huge-%x' % v] = ([(I(v), False)], [], {})
+    E['huge-direct-contents'] = ([(I(I64_MAX), False)], [], {'direct': True})
+    E['huge-a85'] = ([(I(I64_MAX), True)], [], {})
+    E['huge-off-tree'] = ([(I(I64_MAX - 7), False)], [], {'in_tree': False})
+    E['huge-ref'] = ([(REF(20), False)], [(20, I(I64_MAX - 7))], {})
+    E['huge-ref-ref'] = ([(REF(20), True)], [(20, REF(21)), (21, I(I64_MAX))], {'direct': True})
+    E['huge-ref-shared'] = ([(REF(20), False), (REF(20), True), (I(3), False)], [(20, I(2 ** 62))], {})
+    E['sum-overflow'] = ([(I(I64_MAX), False), (I(I64_MAX), False), (I(I64_MAX), True)], [], {})
+    E['sum-huge-small-parts'] = ([(I(2 ** 61), False)] * 5, [], {})
+    for k, v in enumerate(NEG_LENGTHS):
+        E['neg-%d' % k] = ([(I(v), False), (I(2), True)], [], {})
+    E['neg-ref'] = ([(REF(20), False)], [(20, I(I64_MIN))], {})
+    for k, v in enumerate(WRONG_LENGTHS):
+        E['kind-%d' % k] = ([(v, False)], [], {})
+    E['kind-ref-name'] = ([(REF(20), False)], [(20, N('Big'))], {})
+    E['ref-self'] = ([(REF(20), False)], [(20, REF(20))], {})
+    E['ref-cycle2'] = ([(REF(20), True)], [(20, REF(21)), (21, REF(20))], {})
+    E['ref-dangling'] = ([(REF(9000), False)], [], {})
+    E['ref-own-stream'] = ([(REF(10), False)], [], {})
+    E['ref-other-stream'] = ([(REF(11), False), (I(I64_MAX), False)], [], {})
+    E['ref-chain%d' % DEREF_LIMIT] = ([(REF(200), False)], [(200 + j, REF(201 + j)) for j in range(DEREF_LIMIT)] + [(200 + DEREF_LIMIT, I(I64_MAX))], {})
+    E['absent'] = ([(None, False), (None, True)], [], {})
+    return E
+
+
+def gen_length(rng):
+    n = rng.choice([1, 1, 2, 3, 4])
+    streams, extra = [], []
+    for k in range(n):
+        r = rng.random()
+        if r < 0.3: v = I(rng.choice(HUGE_LENGTHS))
+        elif r < 0.4: v = I(rng.choice(NEG_LENGTHS))
+        elif r < 0.5: v = rng.choice(WRONG_LENGTHS)
+        elif r < 0.55: v = None
+        elif r < 0.65: v = I(rng.choice([0, 1, 5, 26, 27, 1000]))
+        else:
+            # through reference objects: to an integer of any size, another kind, a cycle, nothing
+            base = 20 + 10 * k
+            hops = rng.choice([0, 0, 1, 2])
+            t = rng.random()
+            target = (I(rng.choice(HUGE_LENGTHS)) if t < 0.5 else I(rng.choice(NEG_LENGTHS + [3])) if t < 0.65 else
+                      rng.choice(WRONG_LENGTHS) if t < 0.8 else REF(base) if t < 0.9 else None)
+            extra += [(base + j, REF(base + j + 1)) for j in range(hops)]
+            if target is not None:
+                extra.append((base + hops, target))
+            v = REF(base)
+        streams.append((v, rng.random() < 0.3))
+    return length_doc(streams, extra, direct=rng.random() < 0.3, inherit=rng.random() < 0.3, in_tree=rng.random() < 0.85)
+
+
+def big_case(kind, n, stack_kib):
+    """seeded defect C13/p1: a document the HARNESS builds from this description (n small filler objects beside a catalog, an outline
+    root and items whose First links form a cycle / a chain); the queries that are not per-object run on a thread with the given
+    stack.  The extracted runner cannot walk association lists of this size: it answers `model-skipped` and the case is decided by
+    the direct verdict alone."""
+    return L('big', kind, str(n), str(stack_kib))
+
+
 def edge_cases():
     """fixed members of the two families above (present in every run, whatever the seed)"""
     E = {}
@@ -705,6 +807,8 @@ def edge_cases():
     E['toctitle-all-short'] = toctitle_doc([b'', b'\xff', b'\xfe', b'a', b'\xff\xfe', b'\xfe\xff', b'\xfe\xff\x00'])
     for k, (c, extra) in contents_shapes().items():
         E['contents-' + k] = contents_doc(c, extra)
+    for k, (streams, extra, opts) in length_shapes().items():
+        E['length-' + k] = length_doc(streams, extra, **opts)
     return E
 
 
@@ -736,7 +840,28 @@ def gen_cases(rng, tier):
     for k in range(24 if tier == 'quick' else 700):
         line, kind = gen_contents(rng2)
         cases.append((line, {'kind': 'contents-' + kind, 'nontrivial': True}))
+    # Length family (drawn last again)
+    for k in range(24 if tier == 'quick' else 700):
+        cases.append((gen_length(rng2), {'kind': 'length', 'nontrivial': True}))
+    # the big documents (seeded defect C13/p1): implementation only, see big_case
+    for kind, n, kib in (BIG_QUICK if tier == 'quick' else BIG_THOROUGH):
+        cases.append((big_case(kind, n, kib), {'kind': 'big-%s-%d-stack%dk-model-skipped' % (kind, n, kib), 'nontrivial': True}))
     return cases
+
+
+# (kind, filler objects / chain length, stack of the query thread in KiB).  Measured with the seeded mutant p1 (depth limit of
+# get_outlines removed) in the harness's release profile with debug assertions: one level of First nesting takes ~720 bytes of
+# stack, a 2 MiB stack (Rust's default for spawned threads) overflows from ~2 900 objects on, an 8 MiB stack from ~11 400 on;
+# the unchanged tree answers Err(ReferenceLimit) at depth 256 in < 0.4 s whatever the size.
+BIG_QUICK = [('first-cycle', 60000, 8192)]
+BIG_THOROUGH = [('first-cycle', 300000, 8192), ('first-cycle', 60000, 2048), ('first-chain', 60000, 8192), ('first-chain', 12000, 2048)]
+
+
+def compare(model_out, impl_out):
+    """the big cases have no model answer (the runner prints `model-skipped`): never compared"""
+    if model_out.strip() == 'model-skipped':
+        return True
+    return vlib.compare_canon_reals(model_out, impl_out)
 
 
 PARTIAL = ('The proof covers lopdf\'s own loops, recursion, budgets, limits, indexing, unwraps, casts and allocation requests in '
@@ -753,7 +878,7 @@ SPEC = {
     'runner': 'c13',
     'bin': 'c13',
     'gen_cases': gen_cases,
-    'compare': vlib.compare_canon_reals,
+    'compare': compare,
     'impl_shards': 8,
     'model_shards': 16,
     'rule': 'typed-chaos object graphs of 3-14 objects: 30 object roles (catalog, page tree nodes, pages, resources, font / XObject '
@@ -771,7 +896,10 @@ SPEC = {
             'pages (in the page tree) whose Contents is an indirect array that lists itself 1..5 times, arrays listing each other (2-4 cycle), arrays of '
             'arrays with fan-out 1-3 and depth 1..200 (at, below and above DEREF_LIMIT), reference chains of 0..129 links into a self-listing array, '
             'reached directly / inside a direct array / through a reference object, with real streams beside, inside and below the arrays '
-            '(27 fixed members + 24 random per quick run); every query is called for '
+            '(27 fixed members + 24 random per quick run); in-memory content streams (small real content) whose dictionary Length is huge (2^47 .. i64::MAX), '
+            'negative, of another kind, absent, or a reference (chain, cycle, dangling) to such, alone or several whose sum overflows (36 fixed members + 24 random per quick '
+            'run; the chaos streams draw their Length the same way); one document of 60 000 objects (thorough: up to 300 000) built by the harness with a First cycle / a First chain, '
+            'queried on a thread with an 8 MiB / 2 MiB stack -- IMPLEMENTATION ONLY, tagged model-skipped, decided by the direct verdict; every query is called for '
             'every object id plus a dangling one; non-trivial = all; distinct = distinct case text',
     'extra_trusted': ['C13: worker isolation (child process per case, 4 s wall-clock per query group) decides hang/abort; '
                       'panic classes are read from the panic message',
